@@ -489,3 +489,43 @@ REG['C13'] = Spec('C13', c13_jobs, tags=['C13', 'C01'], memsafe=True, compile_fa
     'element must equal static_cast<T>(source) for all source values: integral pairs of equal and different width and signedness, bool, enums, char kinds, floating point, pointer pairs including Derived* -> second base (offset adjustment), void*. '
     'A source/destination pair that the generic path accepts but that does not compile on the bulk-copy path is reported as a violation (front-end decided).',
     bounds=lambda tier: {'conversion_range_length': '<= 3 (2 for insert)', 'source_values': 'all 2^32 inputs mapped into the source type', 'archetypes': 'minimal-requirement archetype grid not built (see DESIGN.md)'})
+
+# ---------------------------------------------------------------- C08: constant evaluation (forced at run time)
+def c08_jobs(tier):
+    js = []
+    ops = [op for op in OPS_ALL]
+    for op in ops:
+        for (n, cap) in ([(2, 2), (2, 4), (0, 0)] if tier == 'quick' else cells(tier)):
+            js.append(ops_job(op, 'int', n, cap, ce=True, maxcnt=2 if tier == 'quick' else 3))
+    for op in (['push_back_c', 'insert_c', 'insert_n', 'resize_v', 'erase_range', 'assign_n', 'emplace_back', 'shrink', 'reserve'] if tier == 'quick' else ops):
+        if op in ('at', 'access'): continue
+        for (n, cap) in ([(2, 2)] if tier == 'quick' else [(2, 2), (2, 4), (0, 2)]):
+            js.append(ops_job(op, 'Tr', n, cap, ce=True))
+    for op in OPS_ALIAS:
+        js.append(ops_job(op, 'int', 2, 4, alias=1, ce=True))
+        if tier != 'quick': js.append(ops_job(op, 'Tr', 2, 2, alias=1, ce=True))
+    # the same configurations in the ordinary run-time build carry the C08 growth-capacity assertion too (both builds equal the same rule)
+    for op in OPS_GROW:
+        js.append(ops_job(op, 'int', 2, 4, std='c++20'))
+    return _nn(js)
+REG['C08'] = Spec('C08', c08_jobs, tags=['C08', 'C01', 'C03'], memsafe=True, level='other', explanation=
+    'PARTIAL. What a solver can reach of this property is the set of code paths selected by std::is_constant_evaluated(): the harness TU includes the standard headers, then defines is_constant_evaluated as a constexpr function returning true, '
+    'then includes the header, so every constant-evaluation branch (always-heap storage, heap_temporary, element-wise copies instead of memcpy/fill, move_iterator work-arounds) is compiled as ordinary C++20 code and encoded. '
+    'The one-container harnesses are re-run on this forced build: sizes, element values, returned positions/references equal the same sequence model as the run-time build (hence equal to it), the capacity after growth equals the header\'s '
+    'mode-independent growth rule applied to the same state and request in BOTH builds, the allocation ledger is empty at the end (no unreleased allocation) and the only live block after each operation is the container\'s buffer, '
+    'and cbmc\'s pointer / bounds / lifetime checks plus the element-lifetime hooks stand in for "no UB / out-of-lifetime access". inlined(), moved-from contents and capacity after move/swap are not compared, as the property allows. '
+    'NOT decided: whether GCC\'s and Clang\'s constant evaluators accept the expressions (reinterpret_cast, construct_at, transient allocation, step limits) - a property of those evaluators, outside any solver over IR; two-container operations under forced constant evaluation are not covered.',
+    assumptions=['forcing std::is_constant_evaluated() to true at run time represents the constant-evaluation code paths faithfully (same templates, same branches); the evaluators\' own acceptance rules are not modelled'],
+    level_text='bounded symbolic checking of the constant-evaluation code paths forced at run time; the compilers\' constant evaluators themselves are outside the technique (partial claim)')
+
+# ---------------------------------------------------------------- C19: default inline capacity / layout (z3)
+def c19_custom(pid, tier, seed, args):
+    import subprocess, os
+    env = dict(os.environ, VERIF_TIER=tier, VERIF_SEED=str(seed))
+    return subprocess.run(['python3-vt', os.path.join(os.path.dirname(os.path.dirname(os.path.abspath(__file__))), 'tools', 'c19.py'), '--tier', tier], env=env).returncode
+REG['C19'] = Spec('C19', None, level='other', custom=c19_custom, engine='z3-layout', explanation=
+    'z3 over the default_buffer_size formula extracted from the header source on every run and an Itanium-ABI layout model of the container object that is validated on every run against sizeof/alignof/offsets of ~400 concrete instantiations compiled with clang++ and g++; '
+    'counterexamples are replayed as static_assert programs. Holds for every stateless allocator with a pointer-wide size_type (the std::allocator case) at any element size/alignment; two violation classes are recorded as known findings.',
+    level_text='solver (z3) decision over an extracted formula and a compiler-validated layout model; not a proof about the compilers\' layout algorithm',
+    level_note='trusted: the layout model (validated per run on ~400 instantiations against clang++-14 and g++ 12), z3; domain sizeof(T) 1..72, alignof 1..64, allocator state 0..24 bytes, size_type 1/2/4/8 bytes',
+    technique='z3 bit-vector queries over a source-extracted formula + compiler-validated class layout model')
